@@ -80,12 +80,25 @@ def run(R):
     for fn in F.fns:
         if not (fn.is_lambda and fn.parent is not None and fn.parent.qname == "dispenso::detail::parallel_for_staticImpl"):
             continue
-        incs = [(p, e) for p, e in fn.events() if e.get("k") == "un" and e.get("op") == "++" and isinstance(strip_casts(e.get("e")), dict) and strip_casts(e.get("e")).get("name") == "chunkIdx"]
+        def inc_target(e):   # ++x, x++, x += 1, x = x + 1  ->  x
+            if e.get("k") == "un" and e.get("op") == "++":
+                return strip_casts(e.get("e"))
+            if e.get("k") == "bin" and e.get("op") == "+=" and const_val(e.get("r")) == 1:
+                return strip_casts(e.get("l"))
+            if e.get("k") == "bin" and e.get("op") == "=":
+                l, r = strip_casts(e.get("l")), strip_casts(e.get("r"))
+                if isinstance(r, dict) and r.get("k") == "bin" and r.get("op") == "+" and isinstance(l, dict):
+                    a, b2 = strip_casts(r.get("l")), strip_casts(r.get("r"))
+                    if (isinstance(a, dict) and a.get("vid") == l.get("vid") and l.get("vid") is not None and const_val(b2) == 1) or \
+                       (isinstance(b2, dict) and b2.get("vid") == l.get("vid") and l.get("vid") is not None and const_val(a) == 1):
+                        return l
+            return None
+        incs = [(p, e) for p, e in fn.events() if isinstance(inc_target(e), dict) and inc_target(e).get("name") == "chunkIdx"]
         if not incs:
             continue
         k += 1
         p, e = incs[0]
-        vid = strip_casts(e.get("e")).get("vid")
+        vid = inc_target(e).get("vid")
         ok = False
         det = "remap not guarded by a comparison with the caller's chunk"
         from lib.rules import comparison_of
